@@ -73,3 +73,86 @@ package spine
 //@   loop 0 invariant frame: unchangedPre(*api.BindingEntry)
 //@   loop 0 invariant len: len(newBindingEntries) == Fcnt($k)
 //@   loop 0 invariant elems: forall j int :: 0 <= j && j < $k && kept($s[j]) ==> newBindingEntries[Fcnt(j)] == $s[j]
+
+// an entry "refers to" a remote entity when its client feature belongs to that entity's device and carries its entity address
+//@ define onEntity(cf, re) = cf.Device().Ski() == re.Device().Ski() && deepEqual(cf.Address().Entity, re.Address().Entity)
+//@ define onEntityAddr(cf, re) = deepEqual(cf.Address().Device, re.Address().Device) && deepEqual(cf.Address().Entity, re.Address().Entity)
+
+//@ func (*BindingManager).RemoveBindingsForEntity
+//@   requires c != nil
+//@   let L0 = c.bindingEntries
+//@   define kept(e) = !onEntity(e.ClientFeature, remoteEntity)
+//@   filter F loop 0 src L0 keep kept
+//@   ensures[C10] nil-noop: remoteEntity == nil ==> c.bindingEntries == L0 && evn == old(evn)
+//@   ensures[C10] view: remoteEntity != nil ==> len(c.bindingEntries) == Fcnt(len(L0)) && forall j int :: 0 <= j && j < len(L0) && kept(L0[j]) ==> c.bindingEntries[Fcnt(j)] == old(L0[j])
+//@   ensures[C10] events: remoteEntity != nil ==> evn == old(evn) + (len(L0) - Fcnt(len(L0)))
+//@   modifies c.bindingEntries, evn, ev, world, held
+//@   loop 0 invariant acc: newBindingEntries == nil || freshPre(newBindingEntries)
+//@   loop 0 invariant frame: unchangedPre(*api.BindingEntry) && unchangedPre(api.BindingEntry) && unchangedPre(model.FeatureAddressType) && unchangedPre(model.EntityAddressType) && unchangedPre(api.EventPayload)
+//@   loop 0 invariant len: len(newBindingEntries) == Fcnt($k)
+//@   loop 0 invariant elems: forall j int :: 0 <= j && j < $k && kept($s[j]) ==> newBindingEntries[Fcnt(j)] == $s[j]
+//@   loop 0 invariant events: evn == pre(evn) + ($k - Fcnt($k))
+
+// ---------------------------------------------------------------------------------------
+// subscription registry (C08, C10)
+
+//@ func (*SubscriptionManager).checkRoleAndType
+//@   requires feature != nil
+//@   ensures[C08] truth: (result == nil) <==> (roleok(feature, role) && typeok(feature, featureType))
+//@   modifies nothing
+
+//@ func (*SubscriptionManager).subscriptionId
+//@   requires c != nil
+//@   ensures[C08] fresh-id: result == old(c.subscriptionNum) + 1 && c.subscriptionNum == result
+//@   modifies c.subscriptionNum
+
+//@ func (*SubscriptionManager).AddSubscription
+//@   requires c != nil && remoteDevice != nil && data.ClientAddress != nil && data.ServerAddress != nil && data.ServerFeatureType != nil
+//@   let SF = c.localDevice.FeatureByAddress(data.ServerAddress)
+//@   let CF = remoteDevice.FeatureByAddress(data.ClientAddress)
+//@   let L0 = c.subscriptionEntries
+//@   define present = exists j int :: 0 <= j && j < len(L0) && L0[j].ServerFeature == SF && L0[j].ClientFeature == CF
+//@   define grantable = SF != nil && roleok(SF, model.RoleTypeServer) && typeok(SF, *data.ServerFeatureType) && CF != nil && roleok(CF, model.RoleTypeClient) && typeok(CF, *data.ServerFeatureType) && !present
+//@   ensures[C08] granted-iff: (result == nil) <==> old(grantable)
+//@   ensures[C08] appended: result == nil ==> len(c.subscriptionEntries) == len(L0) + 1 && (forall j int :: 0 <= j && j < len(L0) ==> c.subscriptionEntries[j] == old(L0[j])) && c.subscriptionEntries[len(L0)].ServerFeature == SF && c.subscriptionEntries[len(L0)].ClientFeature == CF && c.subscriptionEntries[len(L0)].Id > old(c.subscriptionNum) && fresh(c.subscriptionEntries[len(L0)])
+//@   ensures[C08] unchanged: result != nil ==> c.subscriptionEntries == L0
+//@   ensures[C08] event: result == nil ==> evn == old(evn) + 1 && ev[old(evn)].EventType == api.EventTypeSubscriptionChange && ev[old(evn)].ChangeType == api.ElementChangeAdd && ev[old(evn)].Feature == CF && ev[old(evn)].LocalFeature == SF
+//@   ensures[C08] noevent: result != nil ==> evn == old(evn)
+//@   modifies c.subscriptionEntries, c.subscriptionNum, c.subscriptionEntries[len(c.subscriptionEntries)], evn, ev, world, held
+//@   loop 0 invariant none-yet: forall j int :: 0 <= j && j < $k ==> !($s[j].ServerFeature == SF && $s[j].ClientFeature == CF)
+
+//@ func (*SubscriptionManager).RemoveSubscription
+//@   requires c != nil && remoteDevice != nil && data.ClientAddress != nil && data.ServerAddress != nil
+//@   let SF = c.localDevice.FeatureByAddress(data.ServerAddress)
+//@   let CF = remoteDevice.FeatureByAddress(data.ClientAddress)
+//@   let CDEV = ite(data.ClientAddress.Device == nil, remoteDevice.Address(), data.ClientAddress.Device)
+//@   let L0 = c.subscriptionEntries
+//@   define addressed(e) = e.ServerFeature == SF && deepEqual(e.ClientFeature.Address().Device, CDEV) && deepEqual(e.ClientFeature.Address().Entity, data.ClientAddress.Entity) && deepEqual(e.ClientFeature.Address().Feature, data.ClientAddress.Feature)
+//@   define kept(e) = !addressed(e)
+//@   filter F loop 0 src L0 keep kept
+//@   ensures[C08] view: result == nil ==> len(c.subscriptionEntries) == Fcnt(len(L0)) && forall j int :: 0 <= j && j < len(L0) && kept(L0[j]) ==> c.subscriptionEntries[Fcnt(j)] == old(L0[j])
+//@   ensures[C08] removed: result == nil ==> Fcnt(len(L0)) < len(L0)
+//@   ensures[C08] fails-iff-absent: (result != nil) <==> old(CF == nil || SF == nil || Fcnt(len(L0)) == len(L0))
+//@   ensures[C08] unchanged: result != nil ==> c.subscriptionEntries == L0
+//@   ensures[C08] event: result == nil ==> evn == old(evn) + 1 && ev[old(evn)].EventType == api.EventTypeSubscriptionChange && ev[old(evn)].ChangeType == api.ElementChangeRemove && ev[old(evn)].Feature == CF && ev[old(evn)].LocalFeature == SF
+//@   ensures[C08] noevent: result != nil ==> evn == old(evn)
+//@   modifies c.subscriptionEntries, evn, ev, world, held
+//@   loop 0 invariant acc: newSubscriptionEntries == nil || freshPre(newSubscriptionEntries)
+//@   loop 0 invariant frame: unchangedPre(*api.SubscriptionEntry)
+//@   loop 0 invariant len: len(newSubscriptionEntries) == Fcnt($k)
+//@   loop 0 invariant elems: forall j int :: 0 <= j && j < $k && kept($s[j]) ==> newSubscriptionEntries[Fcnt(j)] == $s[j]
+
+//@ func (*SubscriptionManager).RemoveSubscriptionsForEntity
+//@   requires c != nil
+//@   let L0 = c.subscriptionEntries
+//@   define kept(e) = !onEntityAddr(e.ClientFeature, remoteEntity)
+//@   filter F loop 0 src L0 keep kept
+//@   ensures[C10] nil-noop: remoteEntity == nil ==> c.subscriptionEntries == L0 && evn == old(evn)
+//@   ensures[C10] view: remoteEntity != nil ==> len(c.subscriptionEntries) == Fcnt(len(L0)) && forall j int :: 0 <= j && j < len(L0) && kept(L0[j]) ==> c.subscriptionEntries[Fcnt(j)] == old(L0[j])
+//@   ensures[C10] events: remoteEntity != nil ==> evn == old(evn) + (len(L0) - Fcnt(len(L0)))
+//@   modifies c.subscriptionEntries, evn, ev, world, held
+//@   loop 0 invariant acc: newSubscriptionEntries == nil || freshPre(newSubscriptionEntries)
+//@   loop 0 invariant frame: unchangedPre(*api.SubscriptionEntry) && unchangedPre(api.SubscriptionEntry) && unchangedPre(model.FeatureAddressType) && unchangedPre(model.EntityAddressType) && unchangedPre(api.EventPayload)
+//@   loop 0 invariant len: len(newSubscriptionEntries) == Fcnt($k)
+//@   loop 0 invariant elems: forall j int :: 0 <= j && j < $k && kept($s[j]) ==> newSubscriptionEntries[Fcnt(j)] == $s[j]
+//@   loop 0 invariant events: evn == pre(evn) + ($k - Fcnt($k))
